@@ -19,7 +19,9 @@
 (*     the trace specification (ResampleTrace), split so that nothing      *)
 (*     exceeds 2^31.                                                       *)
 (*                                                                         *)
-(* What TLC checks (Resample.cfg / Resample_thorough.cfg; one state per    *)
+(* What TLC checks (Resample.cfg: M <= 5, ascending layouts;               *)
+(* Resample_thorough.cfg: M <= 5, all layouts; Resample_m6.cfg: M <= 6,    *)
+(* ascending layouts; D = 12 throughout; one state per                     *)
 (* (volume vector, layout permutation), exhaustively for all vectors with  *)
 (* denominator D and M <= MaxM grains - zeros, duplicates, one dominant    *)
 (* grain, a single grain all included - and, with AllLayouts = TRUE, ALL   *)
